@@ -53,6 +53,9 @@ Prod == [
   neg   |-> Pre(75, "Opposite", "--"),           abs |-> Pre(75, "AbsoluteValue", "++"),   bnot |-> Pre(75, "BitwiseNot", "!"),
   not   |-> Pre(400, "Not", "!!"),               tis |-> Pre(400, "Tis", "??"),
   reap  |-> Pre(600, "Reapply", "^~"),
+  \* ---- application of a resolved name: prefix  a` x , suffix  x `a , infix  x `a` y   (the name is resolved first)
+  pfa   |-> Pre(150, "PrefixApply", "a`"),       pfb |-> Pre(150, "PrefixApply", "b`"),
+  sfa   |-> Suf(151, "SuffixApply", "`a"),       ifa |-> Bin(152, "InfixApply", "`a`"),
   \* ---- suffix operators
   emp   |-> Suf(40, "EmptyApply", "~~"),
   righti |-> Suf(60, "AccessRightInternal", "._"), leni |-> Suf(60, "AccessLengthInternal", ".|"),
